@@ -7,7 +7,7 @@ ID = 'C12'
 LEVEL = 'exploration'
 BUDGET = {'quick': 100, 'thorough': 900}
 RULE = ('Cases = 0-4 remote children in mixed states (cooperative loop, swallowing exceptions, idle persistent worker, already '
-        'finished, inside a context) x {one-shot, persistent} x stop by server.terminate() or SIGTERM to the server x instant of '
+        'finished, inside a context; persistent ones optionally with a parent thread blocked in next_result()) x {one-shot, persistent} x stop by server.terminate() or SIGTERM to the server x instant of '
         'the stop (seeded, or directed: while a worker is being started) x schedule.')
 ASSUMPTIONS = ['responsive clock; "shortly afterwards" = within 30 simulated seconds']
 
@@ -32,7 +32,7 @@ def gen_case(ctx, rng, i, tag='random'):
                                          '_ConnectionBase.recv', 'PipeEndpoint.send', 'PipeEndpoint.close']),
                  'occ': rng.randrange(1, 12)}
     return {'kind': 'server', 'children': children, 'stop': stop, 'fault': fault, 'during_start': during_start,
-            'stop_timeout': rng.choice([0, 0.01, 0.05, 0.3]),
+            'stop_timeout': rng.choice([0, 0.01, 0.05, 0.3]), 'consumers': rng.random() < 0.5,
             'policy': pol, 'knobs': knobs, 'sched_seed': ctx.case_seed(tag, i)}
 
 
@@ -78,6 +78,16 @@ class Run:
                     ctx_obj = RemoteContext(3, host=addr, target=T.t_loop, kwargs={'n': 100000, 'd': 0.01})
                 w = RemoteWorker(None, context=3, host=addr)
             self.recs.append({'state': st, 'w': w, 'pid': w.pid})
+            if c.get('consumers') and st in ('idle-persistent', 'busy-persistent'):
+                # a parent thread consuming results: blocked in next_result() when the server is stopped
+                def consume(w=w, rec=self.recs[-1]):
+                    try:
+                        rec['consumed'] = ['ok', lib.safe_repr(w.next_result())]
+                    except BaseException as e:   # noqa
+                        rec['consumed'] = ['exc', type(e).__name__]
+                th = SimThread(target=consume)
+                th.start()
+                self.recs[-1]['consumer'] = th
         s.sleep(0.3)
         # install the directed trigger only now, so that it fires while the *next* worker is being started
         late = None
@@ -133,6 +143,12 @@ class Run:
             elif 'w' in box:
                 self.recs.append({'state': 'starting', 'w': box['w'], 'pid': box['w'].pid})
         # every parent-side worker finds out without blocking
+        for rec in self.recs:
+            th = rec.pop('consumer', None)
+            if th is not None:
+                th.join(30.0)
+                if th.is_alive():
+                    self.viol('parents-informed', f'consumer-still-blocked-in-next_result-after-server-stop:{rec["state"]}', s.blocked_report()[:8])
         for rec in self.recs:
             w = rec['w']
             r = lib.call_with_deadline(w.wait, 300.0, timeout=10)
